@@ -201,25 +201,25 @@ Proof.
       rewrite IH. f_equal. f_equal. nlia.
 Qed.
 
-Lemma cut_eq_app a b : Forall wire_safe a -> cut_eq (a ++ eq_sign :: b) = (a, b).
+Lemma cut_eq_app a b : Forall (fun c => c <> eq_sign) a -> cut_eq (a ++ eq_sign :: b) = (a, b).
 Proof.
   induction 1 as [|c a Hc _ IH]; cbn [app cut_eq]; [reflexivity|].
-  destruct Hc as [_ [Hc _]]. replace (c =? eq_sign) with false by lia. rewrite IH. reflexivity.
+  replace (c =? eq_sign) with false by lia. rewrite IH. reflexivity.
 Qed.
 
-Lemma split_on_single a : Forall wire_safe a -> split_on amp a = [a].
+Lemma split_on_single a : Forall (fun c => c <> amp) a -> split_on amp a = [a].
 Proof.
   induction 1 as [|c a Hc _ IH]; cbn [split_on]; [reflexivity|].
-  destruct Hc as [Hc _]. replace (c =? amp) with false by lia. rewrite IH. reflexivity.
+  replace (c =? amp) with false by lia. rewrite IH. reflexivity.
 Qed.
 
-Lemma split_on_app a rest : Forall wire_safe a -> split_on amp (a ++ amp :: rest) = a :: split_on amp rest.
+Lemma split_on_app a rest : Forall (fun c => c <> amp) a -> split_on amp (a ++ amp :: rest) = a :: split_on amp rest.
 Proof.
   induction 1 as [|c a Hc _ IH]; cbn [app split_on]; [reflexivity|].
-  destruct Hc as [Hc _]. replace (c =? amp) with false by lia. rewrite IH. reflexivity.
+  replace (c =? amp) with false by lia. rewrite IH. reflexivity.
 Qed.
 
-Lemma split_on_join segs : segs <> [] -> Forall (Forall wire_safe) segs -> split_on amp (join [amp] segs) = segs.
+Lemma split_on_join segs : segs <> [] -> Forall (Forall (fun c => c <> amp)) segs -> split_on amp (join [amp] segs) = segs.
 Proof.
   induction segs as [|x segs IH]; intros Hne H; [congruence|].
   inversion H as [|? ? Hx Hs]; subst. destruct segs as [|y segs].
@@ -238,20 +238,29 @@ Proof.
   - eapply Forall_impl; [|apply query_escape_safe]. intros c [H1 [_ H3]]. auto.
 Qed.
 
-Lemma parse_segments_encode ps : Forall pair_bytes_ok ps -> parse_segments (map encode_pair ps) = Some ps.
+Lemma parse_segment_encode k v rest :
+  bytes_ok k -> bytes_ok v ->
+  parse_segments (encode_pair (k, v) :: rest) =
+  match parse_segments rest with Some t => Some ((k, v) :: t) | None => None end.
 Proof.
-  induction 1 as [|[k v] ps [Hk Hv] _ IH]; [reflexivity|]. cbn [map parse_segments fst snd] in *.
+  intros Hk Hv. cbn [parse_segments].
   assert (Hsemi : existsb (N.eqb semicolon) (encode_pair (k, v)) = false).
   { destruct (existsb (N.eqb semicolon) (encode_pair (k, v))) eqn:E; [|reflexivity].
     apply existsb_exists in E as [c [Hin Hc]]. pose proof (encode_pair_safe (k, v)) as Hs.
     rewrite Forall_forall in Hs. destruct (Hs c Hin) as [_ Hn]. apply N.eqb_eq in Hc. congruence. }
-  rewrite Hsemi. unfold encode_pair at 1 2. cbn [fst snd app].
-  destruct (query_escape k ++ eq_sign :: query_escape v) eqn:E.
-  { apply app_eq_nil in E as [_ E]. discriminate. }
-  rewrite <- E. cbn [is_nil]. replace (is_nil (query_escape k ++ eq_sign :: query_escape v)) with false
-    by (rewrite E; reflexivity).
-  rewrite (cut_eq_app _ _ (query_escape_safe k)).
-  rewrite (query_unescape_escape k Hk), (query_unescape_escape v Hv), IH. reflexivity.
+  rewrite Hsemi.
+  assert (Hnil : is_nil (encode_pair (k, v)) = false).
+  { unfold encode_pair. cbn [fst snd]. destruct (query_escape k); reflexivity. }
+  rewrite Hnil. unfold encode_pair. cbn [fst snd]. change ([eq_sign] ++ query_escape v) with (eq_sign :: query_escape v).
+  rewrite cut_eq_app.
+  - rewrite (query_unescape_escape k Hk), (query_unescape_escape v Hv). reflexivity.
+  - eapply Forall_impl; [|apply query_escape_safe]. intros c [_ [H _]]. exact H.
+Qed.
+
+Lemma parse_segments_encode ps : Forall pair_bytes_ok ps -> parse_segments (map encode_pair ps) = Some ps.
+Proof.
+  induction 1 as [|[k v] ps [Hk Hv] _ IH]; [reflexivity|]. cbn [map].
+  rewrite (parse_segment_encode k v _ Hk Hv), IH. reflexivity.
 Qed.
 
 (* what url.Values.Encode writes, ParseQuery reads back: nothing is lost or confused on the wire *)
@@ -262,11 +271,45 @@ Proof.
   - apply parse_segments_encode. exact H.
   - discriminate.
   - apply Forall_forall. intros seg Hin. apply in_map_iff in Hin as [kv [<- _]].
-    unfold encode_pair. apply Forall_app; split; [apply query_escape_safe|].
-    apply Forall_app; split; [|apply query_escape_safe].
-    constructor; [|constructor]. unfold wire_safe, amp, eq_sign, semicolon.
-    (* '=' itself separates key and value: it is not an '&' or ';' *)
-Abort.
+    eapply Forall_impl; [|apply encode_pair_safe]. intros c [Hc _]. exact Hc.
+Qed.
+
+(* ---- everything the proxy writes into the query is plain bytes ---- *)
+Lemma enc_char_byte v : enc_char v < 256.
+Proof. unfold enc_char. split_ifs; lia. Qed.
+
+Lemma b64_encode_bytes b : bytes_ok (b64_encode b).
+Proof.
+  unfold bytes_ok. induction b as [| x | x y | x y z r IH] using list_ind3; cbn [b64_encode];
+    repeat (constructor; [first [apply enc_char_byte | unfold pad; lia]|]); auto.
+Qed.
+
+Lemma dec_bytes t : bytes_ok (dec t).
+Proof.
+  assert (H : forall n, bytes_ok (dec_N n)).
+  { intros n. destruct (dec_N_spec n) as [_ [Hd _]]. eapply Forall_impl; [|exact Hd]. unfold is_digit. intros; lia. }
+  destruct t; cbn [dec]; [repeat constructor | apply H | constructor; [lia | apply H]].
+Qed.
+
+Lemma hex_digit_byte v : v < 16 -> hex_digit v < 256.
+Proof. unfold hex_digit. intros. destruct (v <? 10); lia. Qed.
+
+Lemma escape_host_bytes h : bytes_ok h -> bytes_ok (escape_host h).
+Proof.
+  unfold bytes_ok, escape_host. induction 1 as [|c h Hc _ IH]; cbn [flat_map]; [constructor|].
+  apply Forall_app; split; [|exact IH].
+  destruct (host_keep c); [constructor; [exact Hc | constructor]|].
+  constructor; [lia|]. constructor; [apply hex_digit_byte; nlia|]. constructor; [apply hex_digit_byte; nlia | constructor].
+Qed.
+
+Lemma url_string_bytes secure origin_form host : bytes_ok host -> bytes_ok (url_string (proxy_scheme secure origin_form) host).
+Proof.
+  intros H. unfold url_string. apply Forall_app; split; [|apply Forall_app; split; [|apply Forall_app; split]].
+  - destruct origin_form; destruct secure; cbn; repeat constructor; lia.
+  - destruct (proxy_scheme secure origin_form); destruct host; repeat constructor; lia.
+  - apply escape_host_bytes. exact H.
+  - repeat constructor; lia.
+Qed.
 
 (* ------------------------------------------------------------------------------------------ *)
 Section Mac.
@@ -319,6 +362,22 @@ Proof.
   destruct psecret as [|k0 kr]; [congruence|]. cbn [is_nil orb negb].
   rewrite <- Eg, (b64_roundtrip _ Hb). rewrite <- Et, (parse_int_dec now Hnow).
   unfold sig_ttl. replace (now' - now >? 300)%Z with false by lia. apply str_eqb_refl.
+Qed.
+
+(* ... and on the wire: the query string the proxy's Location carries (url.Values.Encode), read by the
+   authenticator's ParseForm (ParseQuery), yields the same three fields, which pass validSignature *)
+Theorem signature_accepted_on_the_wire base psecret asecret secure origin_form host now now' :
+  mac_wf -> asecret = psecret -> psecret <> [] -> bytes_ok host -> int64 now -> (now' - now <= 300)%Z ->
+  let l := p_loc (proxy_sign_out mac base psecret secure origin_form host now) in
+  exists ps, parse_query (encode_query (l_params l)) = Some ps /\
+    valid_signature mac asecret (form_get k_redirect_uri ps) (form_get k_sig ps) (form_get k_ts ps) true now' = true.
+Proof.
+  intros Hwf He Hs Hh Hnow Hage. cbv zeta. exists (l_params (p_loc (proxy_sign_out mac base psecret secure origin_form host now))).
+  split; [|exact (signature_accepted base psecret asecret secure origin_form host now now' Hwf He Hs Hnow Hage)].
+  apply parse_encode_query. unfold proxy_sign_out, get_sign_out_url. cbn [p_loc l_params].
+  repeat constructor; cbn [fst snd]; unfold k_redirect_uri, k_sig, k_ts, sign_redirect;
+    try (apply url_string_bytes; exact Hh); try apply b64_encode_bytes; try apply dec_bytes;
+    repeat constructor; lia.
 Qed.
 
 Definition is_gate (b : abody) : bool := match b with BGate _ => true | _ => false end.
